@@ -212,7 +212,21 @@ func (w *World) execOp(op hx.Zs) []hx.Zs {
 		f, fn, v := r.n(), r.n(), r.n()
 		e := r.eaddr()
 		if fl := w.localFeature(e, f); fl != nil {
-			fl.SetData(Function(fn), DataValue(fn, v))
+			// A local data change is SetData or, for the one-item lists whose item carries its complete
+			// identifier (functions 1 and 3), one of the UpdateData forms that give the same data: no
+			// filter, a bare partial filter (merge by identifier) or a delete filter naming neither
+			// selector nor elements (ignored by the update rules, the data is merged).  The model has one
+			// operation for all of them: the data changes and every subscriber is notified.
+			switch {
+			case (fn == 1 || fn == 3) && v%4 == 1:
+				fl.UpdateData(Function(fn), DataValue(fn, v), nil, nil)
+			case (fn == 1 || fn == 3) && v%4 == 2:
+				fl.UpdateData(Function(fn), DataValue(fn, v), &model.FilterType{CmdControl: &model.CmdControlType{Partial: &model.ElementTagType{}}}, nil)
+			case (fn == 1 || fn == 3) && v%4 == 3:
+				fl.UpdateData(Function(fn), DataValue(fn, v), nil, &model.FilterType{CmdControl: &model.CmdControlType{Delete: &model.ElementTagType{}}})
+			default:
+				fl.SetData(Function(fn), DataValue(fn, v))
+			}
 		} else {
 			ret = append(ret, hx.Zs{9})
 		}
